@@ -177,6 +177,7 @@ type runner struct {
 	kms     *kms
 	docs    []*docModel
 	secrets []*secret
+	stores  []*encFaultStore
 	// next[k] = index into cl.Msgs of the first message not yet delivered to node k
 	next  [3]int
 	stats runStats
@@ -184,22 +185,27 @@ type runner struct {
 }
 
 type runStats struct {
-	updatesOfEncrypted   int // update that wrote a non-null value to an encrypted field that had a field head
-	lateFirstWrites      int // update that first wrote an encrypted-scope field omitted at creation
-	nullThenSet          int // encrypted field created as null and set later
-	counterUpdatesEnc    int
-	holderWrites         int
-	deletes              int
-	deliveriesHolder     int
-	deliveriesKeyless    int
-	prodKeys             bool
-	detKeys              bool
-	controlsFound        int
-	secretsSearched      int
-	deniedFields         int
-	skippedAfterDelete   int
-	keylessDocsInvisible int
-	keylessFieldsNull    int
+	updatesOfEncrypted    int // update that wrote a non-null value to an encrypted field that had a field head
+	lateFirstWrites       int // update that first wrote an encrypted-scope field omitted at creation
+	nullThenSet           int // encrypted field created as null and set later
+	counterUpdatesEnc     int
+	holderWrites          int
+	deletes               int
+	deliveriesHolder      int
+	deliveriesKeyless     int
+	prodKeys              bool
+	detKeys               bool
+	controlsFound         int
+	secretsSearched       int
+	deniedFields          int
+	skippedAfterDelete    int
+	keylessDocsInvisible  int
+	keylessFieldsNull     int
+	keyFaultSteps         int // writes attempted while the writer's key store was unavailable
+	keyFaultFired         int // ... in which a key-store read actually failed / entries were gone
+	keyFaultFailed        int // ... and the write reported an error (nothing stored, retried after restore)
+	keyFaultSucceeded     int // ... and the write went through although a key-store read failed
+	keyFaultSucceededGone int // ... and the write went through while the entries were gone (it may not have needed a key)
 }
 
 func (r *runner) logf(format string, a ...any) {
@@ -255,7 +261,7 @@ func run(c Case) (*hx.Failure, runStats) {
 		hx.Harnessf("case without documents")
 	}
 	r := &runner{c: c}
-	r.cl = hx.NewCluster(3, sdl(c.Branchable), nil)
+	r.cl, r.stores = newFaultCluster(3, sdl(c.Branchable))
 	defer r.cl.Close()
 	r.kms = startKMS(r.cl)
 	defer r.kms.stop()
@@ -443,6 +449,160 @@ func (r *runner) apply(di int, d *docModel, set []FieldVal, op string, writer in
 	}
 }
 
+// doUpdate issues the update; errText is the error the API reported ("" = success).
+func (r *runner) doUpdate(w int, d *docModel, set []FieldVal, route string) (errText string, f *hx.Failure) {
+	n := r.cl.Nodes[w]
+	if route == "gql" {
+		q := fmt.Sprintf(`mutation { update_Users(docID: %q, input: %s) { _docID } }`, d.id, gqlInput(set))
+		res := n.Exec(q)
+		if res.Panic != "" {
+			return "", r.failf("C11/panic/update", "%s panicked: %s", q, res.Panic)
+		}
+		return res.Err(), nil
+	}
+	col := r.collection(w)
+	id, err := client.NewDocIDFromString(d.id)
+	if err != nil {
+		hx.Harnessf("docID: %v", err)
+	}
+	doc, err := col.Get(n.Ctx, id, false)
+	if err != nil {
+		return "get: " + err.Error(), nil
+	}
+	for _, fv := range set {
+		if err := doc.Set(fv.F, fv.V.goValue()); err != nil {
+			hx.Harnessf("Document.Set(%s): %v", fv.F, err)
+		}
+	}
+	if err := col.Update(n.Ctx, doc); err != nil {
+		return err.Error(), nil
+	}
+	return "", nil
+}
+
+func (r *runner) doDelete(w int, d *docModel) (errText string, f *hx.Failure) {
+	n := r.cl.Nodes[w]
+	id, err := client.NewDocIDFromString(d.id)
+	if err != nil {
+		hx.Harnessf("docID: %v", err)
+	}
+	ok, err := r.collection(w).Delete(n.Ctx, id)
+	if err != nil {
+		return err.Error(), nil
+	}
+	if !ok {
+		return "delete reported false", nil
+	}
+	return "", nil
+}
+
+// sharedAndLocal is what a failed write must leave untouched.
+func sharedAndLocal(n *hx.Node) []hx.FaultKV {
+	out := []hx.FaultKV{}
+	for _, kv := range snapshot(n) {
+		if under(kv, blocksPrefix) || under(kv, "/db/heads/") || under(kv, "/db/data/") {
+			out = append(out, kv)
+		}
+	}
+	return out
+}
+
+// write runs one update or delete. With op.KeyFault set it is the step "write while the key is
+// unavailable": the writer's key store cannot be read (all reads / the n-th read fail) or has
+// lost its entries while the write runs. Such a write may fail - then nothing is stored or
+// announced, and the same write succeeds once the key is back - or succeed, and then every
+// clause holds as for any other write: it must never fall back to clear text.
+func (r *runner) write(w int, op Op, d *docModel, what string, do func() (string, *hx.Failure)) (done bool, f *hx.Failure) {
+	n := r.cl.Nodes[w]
+	sigErr := fmt.Sprintf("C11/write-error/%s/%s/n%d", what, d.spec.Mode, w)
+	if op.KeyFault == "" {
+		errText, f := do()
+		if f != nil {
+			return false, f
+		}
+		if errText != "" {
+			return false, r.failf(sigErr, "%s of d%d on n%d failed: %s", what, op.Doc%len(r.docs), w, errText)
+		}
+		return true, nil
+	}
+	r.stats.keyFaultSteps++
+	before := sharedAndLocal(n)
+	fired := 0
+	var restore func()
+	switch op.KeyFault {
+	case "gone":
+		root := n.DB.Rootstore()
+		kvs, err := hx.FaultSnapshotOf(root, []byte(encPrefix))
+		if err != nil {
+			hx.Harnessf("key store scan: %v", err)
+		}
+		for _, kv := range kvs {
+			if err := root.Delete(n.Ctx, kv.K); err != nil {
+				hx.Harnessf("key store delete: %v", err)
+			}
+		}
+		fired = len(kvs)
+		restore = func() {
+			for _, kv := range kvs {
+				if err := root.Set(n.Ctx, kv.K, kv.V); err != nil {
+					hx.Harnessf("key store restore: %v", err)
+				}
+			}
+		}
+	case "read", "read-nth":
+		nth := 0
+		if op.KeyFault == "read-nth" {
+			nth = op.Nth
+			if nth < 1 {
+				nth = 1
+			}
+		}
+		r.stores[w].arm(nth)
+		restore = func() { _, fired = r.stores[w].disarm() }
+	default:
+		hx.Harnessf("unknown key fault %q", op.KeyFault)
+	}
+	r.logf("   key store of n%d unavailable (%s %d)", w, op.KeyFault, op.Nth)
+	errText, f := do()
+	restore()
+	if f != nil {
+		return false, f
+	}
+	if fired > 0 {
+		r.stats.keyFaultFired++
+	}
+	if errText == "" {
+		// tolerated, or no key was needed (unencrypted field, nth beyond the reads): judged like any write
+		r.logf("   write succeeded (key-store reads failed / entries removed: %d)", fired)
+		if fired > 0 && op.KeyFault == "gone" {
+			r.stats.keyFaultSucceededGone++
+		} else if fired > 0 {
+			r.stats.keyFaultSucceeded++
+		}
+		return true, nil
+	}
+	r.logf("   write failed: %s", errText)
+	if fired == 0 {
+		return false, r.failf(sigErr, "%s of d%d on n%d failed although no key-store read was made to fail: %s", what, op.Doc%len(r.docs), w, errText)
+	}
+	r.stats.keyFaultFailed++
+	if msgs := r.cl.Collect(w); len(msgs) > 0 {
+		return false, r.failf("C11/key-unavailable/failed-write-announced", "the %s on n%d reported %q, yet %d update notification(s) were handed to the network layer", what, w, errText, len(msgs))
+	}
+	if diff := hx.FaultDiffKV(before, sharedAndLocal(n), 8); diff != "" {
+		return false, r.failf("C11/key-unavailable/failed-write-left-data", "the %s on n%d reported %q, yet the store changed:\n%s", what, w, errText, diff)
+	}
+	// the key is back: the same write goes through (and is judged like any other)
+	errText, f = do()
+	if f != nil {
+		return false, f
+	}
+	if errText != "" {
+		return false, r.failf(sigErr+"/after-key-restored", "%s of d%d on n%d still fails after the key store is readable again: %s", what, op.Doc%len(r.docs), w, errText)
+	}
+	return true, nil
+}
+
 func (r *runner) update(oi int, op Op, d *docModel) *hx.Failure {
 	w := op.Node
 	if w != creator && w != holder {
@@ -467,35 +627,10 @@ func (r *runner) update(oi int, op Op, d *docModel) *hx.Failure {
 	if len(set) == 0 {
 		return nil
 	}
-	n := r.cl.Nodes[w]
 	r.logf("n%d update d%d route=%s %s", w, di, op.Route, showSet(set))
-	if op.Route == "gql" {
-		q := fmt.Sprintf(`mutation { update_Users(docID: %q, input: %s) { _docID } }`, d.id, gqlInput(set))
-		res := n.Exec(q)
-		if res.Panic != "" {
-			return r.failf("C11/panic/update", "%s panicked: %s", q, res.Panic)
-		}
-		if !res.OK() {
-			return r.failf(fmt.Sprintf("C11/write-error/update/%s/n%d", d.spec.Mode, w), "%s failed on n%d: %s", q, w, res.Err())
-		}
-	} else {
-		col := r.collection(w)
-		id, err := client.NewDocIDFromString(d.id)
-		if err != nil {
-			hx.Harnessf("docID: %v", err)
-		}
-		doc, err := col.Get(n.Ctx, id, false)
-		if err != nil {
-			return r.failf(fmt.Sprintf("C11/write-error/get/%s/n%d", d.spec.Mode, w), "n%d cannot load d%d for update: %v", w, di, err)
-		}
-		for _, fv := range set {
-			if err := doc.Set(fv.F, fv.V.goValue()); err != nil {
-				hx.Harnessf("Document.Set(%s): %v", fv.F, err)
-			}
-		}
-		if err := col.Update(n.Ctx, doc); err != nil {
-			return r.failf(fmt.Sprintf("C11/write-error/update/%s/n%d", d.spec.Mode, w), "update of d%d on n%d failed: %v", di, w, err)
-		}
+	done, f := r.write(w, op, d, "update", func() (string, *hx.Failure) { return r.doUpdate(w, d, set, op.Route) })
+	if f != nil || !done {
+		return f
 	}
 	if w == holder {
 		r.stats.holderWrites++
@@ -516,15 +651,10 @@ func (r *runner) delete(oi int, op Op, d *docModel) *hx.Failure {
 	if f := r.syncNode(w); f != nil {
 		return f
 	}
-	n := r.cl.Nodes[w]
-	id, err := client.NewDocIDFromString(d.id)
-	if err != nil {
-		hx.Harnessf("docID: %v", err)
-	}
 	r.logf("n%d delete d%d", w, op.Doc%len(r.docs))
-	ok, err := r.collection(w).Delete(n.Ctx, id)
-	if err != nil || !ok {
-		return r.failf(fmt.Sprintf("C11/write-error/delete/%s/n%d", d.spec.Mode, w), "delete on n%d: ok=%v err=%v", w, ok, err)
+	done, f := r.write(w, op, d, "delete", func() (string, *hx.Failure) { return r.doDelete(w, d) })
+	if f != nil || !done {
+		return f
 	}
 	d.deleted = true
 	r.stats.deletes++
